@@ -182,6 +182,13 @@ func (fv *FuncVerifier) evalCall(call *ast.CallExpr, st *State, stmt bool) []Ter
 	case *types.Builtin:
 		return fv.evalBuiltin(o.Name(), call, st)
 	case *types.Var:
+		if yc, ok := fv.yields[o]; ok {
+			var args []Term
+			for _, a := range call.Args {
+				args = append(args, fv.eval(a, st))
+			}
+			return fv.callYield(yc, args, st)
+		}
 		if cl, ok := fv.closures[o]; ok {
 			var args []Term
 			for _, a := range call.Args {
@@ -522,6 +529,13 @@ func (fv *FuncVerifier) evalSpecHelper(fn *types.Func, call *ast.CallExpr, st *S
 		}
 		if fn.Name() == "__forall" {
 			return []Term{mk(sortBool, "(forall (%s) %s)", strings.Join(binders, " "), implies(and(guards...), body).S)}
+		}
+		if len(binders) == 1 && strings.HasSuffix(binders[0], " Int)") && fv.info().Defs[lit.Type.Params.List[0].Names[0]].Type() == types.Typ[types.Int] {
+			// witness marker: wit is constantly true; a skolemised hypothesis leaves the ground term
+			// (wit sk), on which the negated existential goal over the same index can be instantiated
+			fv.u.declare("fun:wit", "(declare-fun wit (Int) Bool)\n(assert (forall ((x Int)) (! (wit x) :pattern ((wit x)))))")
+			nm := strings.Fields(strings.Trim(binders[0], "()"))[0]
+			guards = append([]Term{mk(sortBool, "(wit %s)", nm)}, guards...)
 		}
 		return []Term{mk(sortBool, "(exists (%s) %s)", strings.Join(binders, " "), and(append(guards, body)...).S)}
 	case "__old":
@@ -1580,6 +1594,9 @@ func (fv *FuncVerifier) checkFrame(st *State, p token.Pos, ret int) {
 // name in the scope at the loop.
 func (fv *FuncVerifier) evalClauseHere(c *Clause, st *State, pos token.Pos) Term {
 	fr := fv.frame()
+	if fv.clauseCtx != nil {
+		fr, pos = fv.clauseCtx.fr, fv.clauseCtx.pos
+	}
 	specFd := fr.fd
 	sp := fv.prog.specs[specFd.key]
 	fd := fv.prog.decls[sp.PkgPath+"."+c.Wrapper]
